@@ -184,3 +184,65 @@ Definition progress_events_ok (p : list pop) (o : pop) (evs : list pev) : bool :
     | _ => false
     end
   else match evs with [] => true | _ => false end.
+
+(* =============================================================================================
+   Stage 3: silencing for ALL well-bracketed histories (set_silent allowed inside silent() blocks).
+   The repaired silent() saves the flag on entry, sets it, and puts the saved value back on exit;
+   set_silent inside the block changes the flag until the block is left.  On the history this reads:
+   a CLOSED silent() block -- whatever it contains, set_silent calls included -- has no effect on
+   silencing after it; apart from closed blocks the most recent of {set_silent(b), entering a
+   still-open silent() block} decides (b, resp. silenced); with neither, not silenced. *)
+Section Silencing.
+Variables Arg Res : Type.
+Variable beh : func -> Z -> Arg -> Res.
+Notation op := (op Arg).
+
+(* a silent() block is left only when one is open (a Python `with` cannot do otherwise) *)
+Fixpoint brackets_ok_from (d : nat) (p : list op) : bool :=
+  match p with
+  | [] => true
+  | SilentEnter :: r => brackets_ok_from (S d) r
+  | SilentExit :: r => match d with O => false | S d' => brackets_ok_from d' r end
+  | _ :: r => brackets_ok_from d r
+  end.
+Definition brackets_ok (p : list op) : bool := brackets_ok_from 0 p.
+
+(* the history read most-recent-first; d = number of `leave` operations seen whose `enter` has not
+   been reached yet, i.e. we are reading inside d closed blocks, whose content is skipped *)
+Fixpoint flag_scan (d : nat) (rp : list op) : bool :=
+  match rp with
+  | [] => false
+  | SetSilent b :: r => match d with O => b | S _ => flag_scan d r end
+  | SilentEnter :: r => match d with O => true | S d' => flag_scan d' r end
+  | SilentExit :: r => flag_scan (S d) r
+  | _ :: r => flag_scan d r
+  end.
+Definition silenced_all (p : list op) : bool := flag_scan 0 (rev p).
+
+(* sequences in which every block that is entered is left, and none is left that was not entered
+   inside the sequence (the body of a `with silent():` statement that completed) *)
+Inductive balanced : list op -> Prop :=
+| bal_nil : balanced []
+| bal_other o b : is_enter o = false -> is_exit o = false -> balanced b -> balanced (o :: b)
+| bal_block b1 b2 : balanced b1 -> balanced b2 -> balanced (SilentEnter :: b1 ++ SilentExit :: b2).
+
+Definition is_flag_op (o : op) : bool :=
+  match o with SetSilent _ | SilentEnter | SilentExit => true | _ => false end.
+
+(* what an emit does once silencing is decided: the body of [spec_emit] *)
+Definition emit_body (reg : list entry) (ev snd : Z) (a : Arg) (single : option bool) : out Arg Res :=
+  let l := map (call_of snd a) (expected ev snd reg) in
+  if truthy single then
+    match l with
+    | [] => OEmit [] (RList [])
+    | x :: _ => OEmit [x] (RSingle (result_of beh x))
+    end
+  else OEmit l (RList (map (result_of beh) l)).
+
+Definition spec_emit_all (p : list op) (ev snd : Z) (a : Arg) (single : option bool) : out Arg Res :=
+  if silenced_all p then OEmit [] RNone else emit_body (registered p) ev snd a single.
+End Silencing.
+
+Arguments brackets_ok_from {Arg}. Arguments brackets_ok {Arg}. Arguments flag_scan {Arg}.
+Arguments silenced_all {Arg}. Arguments balanced {Arg}. Arguments is_flag_op {Arg}.
+Arguments emit_body {Arg Res}. Arguments spec_emit_all {Arg Res}.
